@@ -4,6 +4,7 @@
 #include <string.h>
 #include <stdlib.h>
 #include <errno.h>
+#include <limits.h>
 
 #include "common.h"
 
@@ -43,7 +44,7 @@ version_parse(const char *version, int tuple[3])
 
 		errno = 0;
 		char *endptr = NULL;
-		int v = (int) strtol(num, &endptr, 10);
+		long v = strtol(num, &endptr, 10);
 
 		if (errno != 0 || endptr == num || endptr[0] != '\0') {
 			err("failed to parse %s number: %s",
@@ -57,7 +58,13 @@ version_parse(const char *version, int tuple[3])
 			return -1;
 		}
 
-		tuple[i] = v;
+		if (v > INT_MAX) {
+			err("%s number too large: %s",
+					which[i], version);
+			return -1;
+		}
+
+		tuple[i] = (int) v;
 	}
 
 	return 0;
